@@ -101,6 +101,11 @@ def drive(mod, args, nruns, ncases, seed_default, preload=()):
     fails = []
     budget = args.budget
     with Farm(preload=[modname]) as farm:
+        from . import seamprobe
+
+        if not seamprobe.guard(farm, rep):
+            return rep.finish({"evaluations": 0, "distinct_nontrivial": 0, "rule": mod.RULE, "samples": []}, mod.ASSUMPTIONS)
+
         def on_result(i, res):
             if budget and time.time() - t0 > budget:
                 return False
